@@ -1078,13 +1078,17 @@ DLLIMPORT cfg_value_t *cfg_setopt(cfg_t *cfg, cfg_opt_t *opt, const char *value)
 			return NULL;
 		}
 
+		/* copy first: s may be the option's own current string */
+		p = strdup(s);
+		if (!p)
+			return NULL;
 		val = cfg_setopt_slot(cfg, opt, value);
-		if (!val)
+		if (!val) {
+			free(p);
 			return NULL;
+		}
 		free(val->string);
-		val->string = strdup(s);
-		if (!val->string)
-			return NULL;
+		val->string = p;
 		break;
 
 	case CFGT_SEC:
@@ -2324,21 +2328,23 @@ DLLIMPORT int cfg_opt_setnstr(cfg_opt_t *opt, const char *value, unsigned int in
 		return CFG_FAIL;
 	}
 
-	val = cfg_opt_getval(opt, index);
-	if (!val)
-		return CFG_FAIL;
-
-	if (val->string)
-		oldstr = val->string;
-
+	/* copy first: value may be the option's own current (default) string, which cfg_opt_getval() can free */
+	newstr = NULL;
 	if (value) {
 		newstr = strdup(value);
 		if (!newstr)
 			return CFG_FAIL;
-		val->string = newstr;
-	} else {
-		val->string = NULL;
 	}
+
+	val = cfg_opt_getval(opt, index);
+	if (!val) {
+		free(newstr);
+		return CFG_FAIL;
+	}
+
+	if (val->string)
+		oldstr = val->string;
+	val->string = newstr;
 
 	if (oldstr)
 		free(oldstr);
